@@ -489,13 +489,125 @@ def l2_bfs(cfg):
     return res
 
 
+# -- L3: values whose size does not measure the same twice ---------------------------------------------
+# A frame of more than 100 rows is measured from a random sample of its rows; a list / dict result is handed out by
+# reference and the caller may extend it afterwards. Whatever an entry was credited with when it was put is what has to be
+# given back when it goes, however the value measures by then.
+L3_BUDGET = 1 * MB
+
+
+def l3_value(cls, tick):
+    import pandas as pd
+
+    if cls == "F":  # strings of uneven length: two sample-based estimates differ
+        return pd.DataFrame({"t%06d" % tick: ["x" * ((i * 7 + tick) % 23) for i in range(160)], "n": list(range(160))})
+    if cls == "G":  # a list the caller keeps and extends
+        return ["%06d" % tick + "g" * 50, "a", "b"]
+    if cls == "K":  # a dict the caller keeps and extends
+        return {"t": "%06d" % tick, "k": "v" * 40}
+    raise HarnessError("unknown L3 class %r" % cls)
+
+
+def l3_run(hist, keys):
+    """Replay one history on a fresh MemoryCache; None or (clause, description)."""
+    import random
+
+    from twosigma.memento.storage_base import MemoryCache
+
+    np.random.seed(20240917)  # the sampling of rows draws from the process-wide generator: owned per history
+    random.seed(20240917)
+    c = MemoryCache(L3_BUDGET / MB)
+    held, mems, live = {}, {}, {}
+    tick = 0
+    for op in hist:
+        kind, ki = op[0], op[1]
+        sym, arg = keys[ki] if isinstance(ki, int) else (None, None)
+        if kind == "put":
+            tick += 1
+            val = l3_value(op[2], tick)
+            mem = storeh.mk_memento(sym, arg, "x", tick)
+            c.put(mem, val, has_result=True)
+            held[ki], mems[ki], live[ki] = val, mem, tick
+        elif kind == "grow":
+            v = held.get(ki)
+            if isinstance(v, list):
+                v.extend(["grown" * 20] * 40)
+            elif isinstance(v, dict):
+                v.update({"g%d" % i: "grown" * 20 for i in range(40)})
+            else:
+                continue
+        elif kind == "read":
+            if ki not in mems:
+                continue
+            try:
+                got = c.read_result(mems[ki])
+            except KeyError:
+                got = None
+            if ki in live and got is not None:
+                # (frames are copied on the way in; lists and dicts are kept by reference)
+                same = got.equals(held[ki]) if hasattr(got, "equals") else got is held[ki]
+                if not same:
+                    return ("l3-stale-read", "read of %s/%s returned something else than the value last put" % (sym, arg))
+            if ki not in live and got is not None:
+                return ("l3-ghost", "read of forgotten %s/%s returned a value" % (sym, arg))
+        elif kind == "fc":
+            c.forget_call(storeh.rah(sym, arg))
+            live.pop(ki, None)
+        elif kind == "ff":
+            c.forget_function(storeh.ref(op[1]))
+            for k, (s_, _) in enumerate(keys):
+                if s_ == op[1]:
+                    live.pop(k, None)
+        resident = sum(e.obj_size for e in c.cache.values())
+        if c.memory_usage != resident:
+            return ("l3-accounting", "after %s: usage %s, the resident entries were credited with %s" % (op, c.memory_usage, resident))
+        if c.memory_usage > L3_BUDGET or c.memory_usage < 0:
+            return ("l3-budget", "after %s: usage %s outside [0, %s]" % (op, c.memory_usage, L3_BUDGET))
+        if not live and (c.memory_usage != 0 or c.cache):
+            return ("l3-residue", "after %s: everything was forgotten, usage is %s with %d entries" % (op, c.memory_usage, len(c.cache)))
+    return None
+
+
+def l3_ops(keys):
+    ops = []
+    for ki in range(len(keys)):
+        ops += [("put", ki, "F"), ("put", ki, "G"), ("put", ki, "K"), ("grow", ki), ("read", ki), ("fc", ki)]
+    ops.append(("ff", keys[0][0]))
+    return ops
+
+
+def l3_part(cfg):
+    keys, depth, first = cfg
+    ops = l3_ops(keys)
+    res = {"states": 0, "transitions": 0, "traces": 0, "violations": [], "outcomes": set(), "samples": []}
+    level = [(ops[first],)]
+    for d in range(depth):
+        nxt = []
+        for h in level:
+            bad = l3_run(h, keys)
+            res["transitions"] += 1
+            res["traces"] += 1
+            if bad:
+                sig = "L3|%s|%s" % (h[-1][0] + (":" + h[-1][2] if len(h[-1]) > 2 else ""), bad[0])
+                res["violations"].append((sig, bad[1] + "\nhistory: %s" % (list(h),), {"level": 3, "keys": keys, "history": [list(o) for o in h]}))
+                continue
+            res["states"] += 1
+            if d + 1 < depth:
+                nxt += [h + (op,) for op in ops]
+        level = nxt
+    res["outcomes"] = ["L3:first=%s" % (ops[first],)]
+    return res
+
+
 def run(ctx):
     thorough = ctx.tier == "thorough"
     ctx.rule = ("L1: BFS over MemoryCache op histories (put by size class S/H/E/X and weak-referenceable A/AX, "
                 "put memento-only, read, is_memoized, get_mementos, forget call/function/everything, drop harness "
                 "refs) to closure of the canonical real state; a state is non-trivial/distinct by its (recency "
                 "sequence, resident entries) pair. L2: all histories to a depth on FilesystemStorageBackend+cache "
-                "with open() audit under the store root.")
+                "with open() audit under the store root. L3: all histories to a depth over results that measure differently the second time "
+                "(frames of 160 rows measured from a row sample, lists / dicts the caller extends): usage == what the resident entries were credited with, "
+                "within [0, budget], zero once everything is forgotten.")
     ctx.assumptions += ["size of a str/ndarray value is sys.getsizeof as used by the cache",
                         "get_mementos / is_memoized hits may or may not refresh recency (both accepted)",
                         "CPython refcounting frees dropped arrays immediately (weak reference liveness)"]
@@ -523,6 +635,15 @@ def run(ctx):
     l2 = pmap(l2_bfs, [c + (i,) for c in l2cfg for i in range(6 * len(c[1]))], chunksize=1)
     ctx.merge(l2)
     ctx.extra["l2_histories"] = sum(r["transitions"] for r in l2)
+    # L3: results that measure differently the second time (sampled frames, lists / dicts extended by the caller)
+    l3keys = KEYS3[:2]
+    l3depth = 5 if thorough else 4
+    a3 = l3_run((("put", 0, "F"), ("put", 1, "G"), ("grow", 1), ("fc", 0)), l3keys)
+    b3 = l3_run((("put", 0, "F"), ("put", 1, "G"), ("grow", 1), ("fc", 0)), l3keys)
+    ctx.selfcheck("L3 history twice gives the same verdict", a3 == b3)
+    l3 = pmap(l3_part, [(l3keys, l3depth, i) for i in range(len(l3_ops(l3keys)))], chunksize=1)
+    ctx.merge(l3)
+    ctx.extra["l3_histories"] = sum(r["transitions"] for r in l3)
     # the same invariants when two threads use the cache at the same time (hits racing with write-throughs / evictions)
     cs = [("fs+cache-one|cache|same", "fs+cache-one", "cache", [[("g", 1)], [("g", 1)]]),
           ("fs+cache-one|cache|diff", "fs+cache-one", "cache", [[("g", 1)], [("g", 2)]]),
@@ -541,7 +662,9 @@ def replay(ctx, art):
         return c09.replay_concurrent("C06", art)
     keys = [tuple(k) for k in a["keys"]]
     hist = [tuple(o) for o in a["history"]]
-    if a["level"] == 1:
+    if a["level"] == 3:
+        bad = l3_run(hist, keys)
+    elif a["level"] == 1:
         r = Run(a["budget"], keys)
         bad = None
         for op in hist:
